@@ -931,7 +931,7 @@ func typeAssert(i *interpreter, instr *ssa.TypeAssert, itf iface) value {
 
 	if err != "" {
 		if !instr.CommaOk {
-			panic(err)
+			panic(runtimeError(err))
 		}
 		return tuple{zero(instr.AssertedType), false}
 	}
@@ -1092,8 +1092,8 @@ func callBuiltin(caller *frame, callpos token.Pos, fn *ssa.Builtin, args []value
 		if recv.(*value) == nil {
 			recvType := args[1]
 			methodName := args[2]
-			panic(fmt.Sprintf("value method (%s).%s called using nil *%s pointer",
-				recvType, methodName, recvType))
+			panic(runtimeError(fmt.Sprintf("value method (%s).%s called using nil *%s pointer",
+				recvType, methodName, recvType)))
 		}
 		return recv
 
